@@ -332,6 +332,27 @@ def c16 (h : H) : List String :=
       else []
     | _ => []
 
-def all (h : H) : List String := (c14 h ++ c15 h ++ c16 h).eraseDups
+/-- a MARKED command that is sent round DoCommand's loop by io.EOF while a connect delay is pending (the delay was
+    announced at an earlier virtual instant, so its timer is armed) fast-forwards it: the sequence's first dial does
+    not come later than that execution -/
+def c16retry (h : H) : List String :=
+  let c := cfgOf h
+  let ih := idxd h
+  ih.flatMap fun (i0, e0) => match e0 with
+    | .ondisc status t0 =>
+      if (status = 2 ∧ c.delay > 0) ∨ (status = 3 ∧ c.window > 0) then
+        match ih.find? (fun (j, e) => decide (j > i0) && match e with
+            | .dialb _ _ => true | .ondisc _ _ => true | _ => false) with
+        | some (j1, .dialb _ t1) =>
+          let marked (k : Nat) : Bool := ih.any fun (_, e) => match e with | .cmdb k' true _ => k' == k | _ => false
+          if ih.any (fun (j, e) => decide (i0 < j) && decide (j < j1) && match e with
+              | .exec k _ _ "eof" te => marked k && decide (t0 < te) && decide (te < t1)
+              | _ => false)
+          then ["C16:fire-now-ignored:marked-command-retrying-after-eof"] else []
+        | _ => []
+      else []
+    | _ => []
+
+def all (h : H) : List String := (c14 h ++ c15 h ++ c16 h ++ c16retry h).eraseDups
 
 end FmpRpc.CM
